@@ -352,7 +352,7 @@ func TestC24(t *testing.T) {
 		"0/1/63/255), built by the real AddASEntry+trust.Signer and by a clean-room signer; for each: every trailing truncation " +
 		"(must verify), every byte of every HeaderAndBody, Signature and of the segment info under each mask, every swap / " +
 		"removal / duplication / foreign insertion of entries, every (entry, wrong signer identity) pair, and per hop expiry " +
-		"every certificate window around [timestamp, timestamp+lifetime]; all hop-expiry vectors over {0,63,255} of 2- and 3-entry " +
+		"every certificate window around [timestamp, timestamp+lifetime] (all window cases under time.Local = UTC, UTC+05:30 and UTC-08:00); all hop-expiry vectors over {0,63,255} of 2- and 3-entry " +
 		"segments x entry position x certificate windows relative to that entry's own / the segment's shortest / longest lifetime " +
 		"(and peer hop fields with another expiry); chains in the DB or only at a remote server that " +
 		"answers with right/wrong chains; cached verifier histories of 2 verifications (same key with other validity; warm-ups of several ASes followed by every signer-identity forgery). One case = one VerifySegment verdict " +
@@ -690,225 +690,237 @@ func c24Run(r *mc.Run, budget *atomic.Bool) {
 	}
 
 	// ---------- Part C: certificate validity vs hop lifetime ----------
-	type window struct {
-		what string
-		nb   time.Duration // NotBefore - ts
-		na   func(life time.Duration) time.Duration
-		want string // accept / reject / "" (boundary instant: either verdict)
-	}
-	ceil := func(d time.Duration) time.Duration { return (d + time.Second - 1).Truncate(time.Second) }
-	windows := []window{
-		{"covers with slack", -time.Hour, func(l time.Duration) time.Duration { return ceil(l) + time.Hour }, "accept"},
-		{"starts 1s before, ends at first whole second >= end of life", -time.Second, func(l time.Duration) time.Duration { return ceil(l) }, "accept"},
-		{"starts exactly at the timestamp", 0, func(l time.Duration) time.Duration { return ceil(l) + time.Hour }, ""},
-		{"starts 1s after the timestamp", time.Second, func(l time.Duration) time.Duration { return ceil(l) + time.Hour }, "reject"},
-		{"ends 1s before the first whole second >= end of life", -time.Hour, func(l time.Duration) time.Duration { return ceil(l) - time.Second }, "reject"},
-		{"ends one expiry unit early", -time.Hour, func(l time.Duration) time.Duration { return l - c24Unit }, "reject"},
-	}
-	boundary := map[string]int{}
-	for _, exp := range []uint8{0, 1, 2, 63, 254, 255} {
-		life := time.Duration(int(exp)+1) * c24Unit
-		for wi, w := range windows {
-			if budget.Load() {
-				return
-			}
-			want := w.want
-			na := w.na(life)
-			if na == life && want == "accept" {
-				want = "" // the window ends exactly at the end of life: boundary instant
-			}
-			if ts.Add(na).Before(now.Add(time.Second)) {
-				continue // certificate would not be valid at verification time: another property's business
-			}
-			v := cppki.Validity{NotBefore: ts.Add(w.nb), NotAfter: ts.Add(na)}
-			c := c24MakeCred(isd1, isd1.ca, creds[1].ia, fmt.Sprintf("win-%d-%d", exp, wi), v, elliptic.P256())
-			for _, where := range []string{"db", "remote"} {
-				for n := 1; n <= 2; n++ { // windowed certificate signs the last entry of a 1- and 2-entry segment
-					es := chainOf(2, exp, -1)[:n]
-					if n == 1 {
-						es[0] = c24Honest(&c, 0, 0, 0, exp, 0)
-						es[0].local = c.ia
-					} else {
-						es[1] = c24Honest(&c, 0, 11, 0, exp, 0)
-					}
-					if n == 1 {
-						// single-entry segment of AS creds[1].ia
-					} else {
-						es[0].next = c.ia
-					}
-					ps := c24RefBuild(c24Info(ts, 0x3000), es, now)
-					st, err := c24NewStore(isds, creds[0].chain())
-					if err != nil {
-						r.HarnessError("trust db: %v", err)
-						return
-					}
-					if where == "db" {
-						st.db.InsertChain(context.Background(), c.chain())
-					} else {
-						st.fetcher.answer = [][]*x509.Certificate{c.chain()}
-					}
-					what := fmt.Sprintf("exp=%d (life %v) n=%d chain in %s, certificate [ts%+v, ts+%v]: %s", exp, life, n, where, w.nb, na, w.what)
-					if want == "" {
-						got, _ := c24Check(st.verifier(nil), ps, false)
-						r.CaseBulk(1, 1)
-						boundary[got]++
-						r.Outcome("validity-boundary:" + got)
-					} else {
-						expect("validity", want, "certificate-window-"+map[string]string{"accept": "covering-rejected", "reject": "not-covering-accepted"}[want],
-							what, st.verifier(nil), ps, false)
-					}
-					st.db.Close()
-				}
-			}
-		}
-	}
-	r.Extra["boundary_instant_verdicts"] = boundary
-
-	// ---------- Part C2: hop expiries that differ within one segment ----------
-	// Every expiry vector over {0,63,255} for 2- and 3-entry segments x every entry position as the one whose signer has
-	// a bounded certificate x windows placed relative to that entry's OWN lifetime and to the shortest / longest lifetime
-	// of the segment. The entry must verify iff the certificate covers its own hop field's lifetime, whatever the other
-	// entries' (or its peer entries') expiries are. Both signing styles for the honest part (reference signer here).
-	{
-		expAlphabet := []uint8{0, 63, 255}
-		lifeOf := func(e uint8) time.Duration { return time.Duration(int(e)+1) * c24Unit }
-		type wkey struct {
-			pos int
-			na  time.Duration
-		}
-		wcreds := map[wkey]*c24Cred{}
-		var c2Chains [][]*x509.Certificate
-		c2Chains = append(c2Chains, allChains...)
-		credFor := func(pos int, na time.Duration) *c24Cred {
-			k := wkey{pos, na}
-			if c, ok := wcreds[k]; ok {
-				return c
-			}
-			isd := isd1
-			if creds[pos].ia.ISD() == 2 {
-				isd = isd2
-			}
-			c := c24MakeCred(isd, isd.ca, creds[pos].ia, fmt.Sprintf("mixed-%d-%d", pos, na/time.Second),
-				cppki.Validity{NotBefore: ts.Add(-time.Hour), NotAfter: ts.Add(na)}, elliptic.P256())
-			wcreds[k] = &c
-			c2Chains = append(c2Chains, c.chain())
-			return &c
-		}
-		type c2case struct {
+	// Parts C and C2 run once per process time zone: segment timestamps are time.Unix values (= in time.Local) and the
+	// trust DB compares times as text, so every certificate-window verdict has to be independent of time.Local.
+	origLocal := time.Local
+	defer func() { time.Local = origLocal }()
+	for _, zone := range []struct {
+		name string
+		loc  *time.Location
+	}{{"UTC", time.UTC}, {"UTC+05:30", time.FixedZone("c24-east", 5*3600+1800)}, {"UTC-08:00", time.FixedZone("c24-west", -8*3600)}} {
+		time.Local = zone.loc
+		zn := "time.Local=" + zone.name + ": "
+		type window struct {
 			what string
-			es   []c24Entry
-			want string
+			nb   time.Duration // NotBefore - ts
+			na   func(life time.Duration) time.Duration
+			want string // accept / reject / "" (boundary instant: either verdict)
 		}
-		var c2 []c2case
-		for n := 2; n <= 3; n++ {
-			nvec := 1
-			for i := 0; i < n; i++ {
-				nvec *= len(expAlphabet)
-			}
-			for v := 0; v < nvec; v++ {
-				exps := make([]uint8, n)
-				minLife, maxLife := time.Duration(1<<62), time.Duration(0)
-				for i, x := 0, v; i < n; i, x = i+1, x/len(expAlphabet) {
-					exps[i] = expAlphabet[x%len(expAlphabet)]
-					if l := lifeOf(exps[i]); l < minLife {
-						minLife = l
-					}
-					if l := lifeOf(exps[i]); l > maxLife {
-						maxLife = l
+		ceil := func(d time.Duration) time.Duration { return (d + time.Second - 1).Truncate(time.Second) }
+		windows := []window{
+			{"covers with slack", -time.Hour, func(l time.Duration) time.Duration { return ceil(l) + time.Hour }, "accept"},
+			{"starts 1s before, ends at first whole second >= end of life", -time.Second, func(l time.Duration) time.Duration { return ceil(l) }, "accept"},
+			{"starts exactly at the timestamp", 0, func(l time.Duration) time.Duration { return ceil(l) + time.Hour }, ""},
+			{"starts 1s after the timestamp", time.Second, func(l time.Duration) time.Duration { return ceil(l) + time.Hour }, "reject"},
+			{"ends 1s before the first whole second >= end of life", -time.Hour, func(l time.Duration) time.Duration { return ceil(l) - time.Second }, "reject"},
+			{"ends one expiry unit early", -time.Hour, func(l time.Duration) time.Duration { return l - c24Unit }, "reject"},
+		}
+		boundary := map[string]int{}
+		for _, exp := range []uint8{0, 1, 2, 63, 254, 255} {
+			life := time.Duration(int(exp)+1) * c24Unit
+			for wi, w := range windows {
+				if budget.Load() {
+					return
+				}
+				want := w.want
+				na := w.na(life)
+				if na == life && want == "accept" {
+					want = "" // the window ends exactly at the end of life: boundary instant
+				}
+				if ts.Add(na).Before(now.Add(time.Second)) {
+					continue // certificate would not be valid at verification time: another property's business
+				}
+				v := cppki.Validity{NotBefore: ts.Add(w.nb), NotAfter: ts.Add(na)}
+				c := c24MakeCred(isd1, isd1.ca, creds[1].ia, fmt.Sprintf("win-%d-%d", exp, wi), v, elliptic.P256())
+				for _, where := range []string{"db", "remote"} {
+					for n := 1; n <= 2; n++ { // windowed certificate signs the last entry of a 1- and 2-entry segment
+						es := chainOf(2, exp, -1)[:n]
+						if n == 1 {
+							es[0] = c24Honest(&c, 0, 0, 0, exp, 0)
+							es[0].local = c.ia
+						} else {
+							es[1] = c24Honest(&c, 0, 11, 0, exp, 0)
+						}
+						if n == 1 {
+							// single-entry segment of AS creds[1].ia
+						} else {
+							es[0].next = c.ia
+						}
+						ps := c24RefBuild(c24Info(ts, 0x3000), es, now)
+						st, err := c24NewStore(isds, creds[0].chain())
+						if err != nil {
+							r.HarnessError("trust db: %v", err)
+							return
+						}
+						if where == "db" {
+							st.db.InsertChain(context.Background(), c.chain())
+						} else {
+							st.fetcher.answer = [][]*x509.Certificate{c.chain()}
+						}
+						what := zn + fmt.Sprintf("exp=%d (life %v) n=%d chain in %s, certificate [ts%+v, ts+%v]: %s", exp, life, n, where, w.nb, na, w.what)
+						if want == "" {
+							got, _ := c24Check(st.verifier(nil), ps, false)
+							r.CaseBulk(1, 1)
+							boundary[got]++
+							r.Outcome("validity-boundary:" + got)
+						} else {
+							expect("validity", want, "certificate-window-"+map[string]string{"accept": "covering-rejected", "reject": "not-covering-accepted"}[want],
+								what, st.verifier(nil), ps, false)
+						}
+						st.db.Close()
 					}
 				}
-				for pos := 0; pos < n; pos++ {
-					own := lifeOf(exps[pos])
-					wins := []struct {
-						what string
-						na   time.Duration
-					}{
-						{"ends 1s after this entry's own end of life", ceil(own) + time.Second},
-						{"ends 1s before the first whole second >= this entry's own end of life", ceil(own) - time.Second},
-						{"ends 1s after the SHORTEST hop lifetime of the segment", ceil(minLife) + time.Second},
-						{"ends 1s after the LONGEST hop lifetime of the segment", ceil(maxLife) + time.Second},
+			}
+		}
+		r.Extra["boundary_instant_verdicts "+zone.name] = boundary
+
+		// ---------- Part C2: hop expiries that differ within one segment ----------
+		// Every expiry vector over {0,63,255} for 2- and 3-entry segments x every entry position as the one whose signer has
+		// a bounded certificate x windows placed relative to that entry's OWN lifetime and to the shortest / longest lifetime
+		// of the segment. The entry must verify iff the certificate covers its own hop field's lifetime, whatever the other
+		// entries' (or its peer entries') expiries are. Both signing styles for the honest part (reference signer here).
+		{
+			expAlphabet := []uint8{0, 63, 255}
+			lifeOf := func(e uint8) time.Duration { return time.Duration(int(e)+1) * c24Unit }
+			type wkey struct {
+				pos int
+				na  time.Duration
+			}
+			wcreds := map[wkey]*c24Cred{}
+			var c2Chains [][]*x509.Certificate
+			c2Chains = append(c2Chains, allChains...)
+			credFor := func(pos int, na time.Duration) *c24Cred {
+				k := wkey{pos, na}
+				if c, ok := wcreds[k]; ok {
+					return c
+				}
+				isd := isd1
+				if creds[pos].ia.ISD() == 2 {
+					isd = isd2
+				}
+				c := c24MakeCred(isd, isd.ca, creds[pos].ia, fmt.Sprintf("mixed-%d-%d", pos, na/time.Second),
+					cppki.Validity{NotBefore: ts.Add(-time.Hour), NotAfter: ts.Add(na)}, elliptic.P256())
+				wcreds[k] = &c
+				c2Chains = append(c2Chains, c.chain())
+				return &c
+			}
+			type c2case struct {
+				what string
+				es   []c24Entry
+				want string
+			}
+			var c2 []c2case
+			for n := 2; n <= 3; n++ {
+				nvec := 1
+				for i := 0; i < n; i++ {
+					nvec *= len(expAlphabet)
+				}
+				for v := 0; v < nvec; v++ {
+					exps := make([]uint8, n)
+					minLife, maxLife := time.Duration(1<<62), time.Duration(0)
+					for i, x := 0, v; i < n; i, x = i+1, x/len(expAlphabet) {
+						exps[i] = expAlphabet[x%len(expAlphabet)]
+						if l := lifeOf(exps[i]); l < minLife {
+							minLife = l
+						}
+						if l := lifeOf(exps[i]); l > maxLife {
+							maxLife = l
+						}
 					}
-					for _, w := range wins {
-						es := chainOf(n, 63, -1)
-						for i := range es {
-							es[i].exp = exps[i]
+					for pos := 0; pos < n; pos++ {
+						own := lifeOf(exps[pos])
+						wins := []struct {
+							what string
+							na   time.Duration
+						}{
+							{"ends 1s after this entry's own end of life", ceil(own) + time.Second},
+							{"ends 1s before the first whole second >= this entry's own end of life", ceil(own) - time.Second},
+							{"ends 1s after the SHORTEST hop lifetime of the segment", ceil(minLife) + time.Second},
+							{"ends 1s after the LONGEST hop lifetime of the segment", ceil(maxLife) + time.Second},
 						}
-						c := credFor(pos, w.na)
-						h := c24Honest(c, es[pos].next, es[pos].ingress, es[pos].egress, exps[pos], 0)
-						es[pos] = h
-						want := "reject"
-						if w.na >= own {
-							want = "accept"
+						for _, w := range wins {
+							es := chainOf(n, 63, -1)
+							for i := range es {
+								es[i].exp = exps[i]
+							}
+							c := credFor(pos, w.na)
+							h := c24Honest(c, es[pos].next, es[pos].ingress, es[pos].egress, exps[pos], 0)
+							es[pos] = h
+							want := "reject"
+							if w.na >= own {
+								want = "accept"
+							}
+							c2 = append(c2, c2case{fmt.Sprintf("expiries %v, entry %d signed with a certificate that %s (NotAfter ts+%v, own lifetime %v)",
+								exps, pos, w.what, w.na, own), es, want})
 						}
-						c2 = append(c2, c2case{fmt.Sprintf("expiries %v, entry %d signed with a certificate that %s (NotAfter ts+%v, own lifetime %v)",
-							exps, pos, w.what, w.na, own), es, want})
 					}
 				}
 			}
-		}
-		// peer hop fields of the same entry with another expiry than the hop field
-		u8 := func(v uint8) *uint8 { return &v }
-		for _, pc := range []struct {
-			hop, peer uint8
-			cover     string
-		}{{255, 0, "peer"}, {255, 0, "hop"}, {0, 255, "hop"}, {0, 255, "peer"}} {
-			es := chainOf(2, 63, -1)
-			na := ceil(lifeOf(pc.hop)) + time.Second
-			if pc.cover == "peer" {
-				na = ceil(lifeOf(pc.peer)) + time.Second
+			// peer hop fields of the same entry with another expiry than the hop field
+			u8 := func(v uint8) *uint8 { return &v }
+			for _, pc := range []struct {
+				hop, peer uint8
+				cover     string
+			}{{255, 0, "peer"}, {255, 0, "hop"}, {0, 255, "hop"}, {0, 255, "peer"}} {
+				es := chainOf(2, 63, -1)
+				na := ceil(lifeOf(pc.hop)) + time.Second
+				if pc.cover == "peer" {
+					na = ceil(lifeOf(pc.peer)) + time.Second
+				}
+				c := credFor(1, na)
+				es[1] = c24Honest(c, 0, es[1].ingress, 0, pc.hop, 2)
+				es[1].peerExp = u8(pc.peer)
+				want := "reject"
+				if na >= lifeOf(pc.hop) {
+					want = "accept"
+				}
+				if pc.hop == 0 && pc.peer == 255 && pc.cover == "hop" {
+					want = "" // the hop field is covered, the longer-lived peer hop fields are not: not decided by the statement
+				}
+				c2 = append(c2, c2case{fmt.Sprintf("last entry hop ExpTime %d with peer hop fields ExpTime %d, certificate covers the %s lifetime only", pc.hop, pc.peer, pc.cover), es, want})
 			}
-			c := credFor(1, na)
-			es[1] = c24Honest(c, 0, es[1].ingress, 0, pc.hop, 2)
-			es[1].peerExp = u8(pc.peer)
-			want := "reject"
-			if na >= lifeOf(pc.hop) {
-				want = "accept"
-			}
-			if pc.hop == 0 && pc.peer == 255 && pc.cover == "hop" {
-				want = "" // the hop field is covered, the longer-lived peer hop fields are not: not decided by the statement
-			}
-			c2 = append(c2, c2case{fmt.Sprintf("last entry hop ExpTime %d with peer hop fields ExpTime %d, certificate covers the %s lifetime only", pc.hop, pc.peer, pc.cover), es, want})
-		}
-		st, err := c24NewStore(isds, c2Chains...)
-		if err != nil {
-			r.HarnessError("trust db: %v", err)
-			return
-		}
-		v2 := st.verifier(nil)
-		mc.ParallelFor(len(c2), func(i int) {
-			if budget.Load() {
-				return
-			}
-			c := c2[i]
-			ps := c24RefBuild(c24Info(ts, 0x3100), c.es, now)
-			if c.want == "" {
-				got, _ := c24Check(v2, ps, false)
-				r.CaseBulk(1, 1)
-				r.Outcome("mixed-expiry-peer-unspecified:" + got)
-				return
-			}
-			key := "mixed-expiry-own-lifetime-not-covered-accepted"
-			if c.want == "accept" {
-				key = "mixed-expiry-covering-certificate-rejected"
-			}
-			expect("mixed-expiry", c.want, key, c.what, v2, ps, false)
-		})
-		// the same honest mixed-expiry segments through the real AddASEntry + trust.Signer (all certificates wide)
-		for _, exps := range [][]uint8{{0, 255}, {255, 0}, {0, 63, 255}, {255, 63, 0}, {63, 0, 255}} {
-			es := chainOf(len(exps), 63, 1)
-			for i := range es {
-				es[i].exp = exps[i]
-			}
-			ps, err := c24RealBuild(ts, 0x3200, es)
+			st, err := c24NewStore(isds, c2Chains...)
 			if err != nil {
-				r.HarnessError("real mixed-expiry segment: %v", err)
-				continue
+				r.HarnessError("trust db: %v", err)
+				return
 			}
-			expect("mixed-expiry-real", "accept", "honest-segment-rejected", fmt.Sprintf("real-signed, expiries %v", exps), v2, ps, false)
+			v2 := st.verifier(nil)
+			mc.ParallelFor(len(c2), func(i int) {
+				if budget.Load() {
+					return
+				}
+				c := c2[i]
+				ps := c24RefBuild(c24Info(ts, 0x3100), c.es, now)
+				if c.want == "" {
+					got, _ := c24Check(v2, ps, false)
+					r.CaseBulk(1, 1)
+					r.Outcome("mixed-expiry-peer-unspecified:" + got)
+					return
+				}
+				key := "mixed-expiry-own-lifetime-not-covered-accepted"
+				if c.want == "accept" {
+					key = "mixed-expiry-covering-certificate-rejected"
+				}
+				expect("mixed-expiry", c.want, key, zn+c.what, v2, ps, false)
+			})
+			// the same honest mixed-expiry segments through the real AddASEntry + trust.Signer (all certificates wide)
+			for _, exps := range [][]uint8{{0, 255}, {255, 0}, {0, 63, 255}, {255, 63, 0}, {63, 0, 255}} {
+				es := chainOf(len(exps), 63, 1)
+				for i := range es {
+					es[i].exp = exps[i]
+				}
+				ps, err := c24RealBuild(ts, 0x3200, es)
+				if err != nil {
+					r.HarnessError("real mixed-expiry segment: %v", err)
+					continue
+				}
+				expect("mixed-expiry-real", "accept", "honest-segment-rejected", zn+fmt.Sprintf("real-signed, expiries %v", exps), v2, ps, false)
+			}
+			st.db.Close()
+			r.Extra["mixed_expiry_cases"] = len(c2)
 		}
-		st.db.Close()
-		r.Extra["mixed_expiry_cases"] = len(c2)
 	}
+	time.Local = origLocal
 
 	// ---------- Part D: chain only available from a remote server ----------
 	{
